@@ -22,15 +22,19 @@ var ElemLayoutOK, PointLayoutOK, ScalarLayoutOK bool
 
 func init() {
 	et := reflect.TypeOf(field.Element{})
-	ElemLayoutOK = et.Size() == 40 && et.NumField() == 5
-	if ElemLayoutOK {
-		for i := 0; i < 5; i++ {
-			f := et.Field(i)
-			if f.Type.Kind() != reflect.Uint64 || f.Offset != uintptr(8*i) {
-				ElemLayoutOK = false
+	// the five limbs are located by name (l0..l4, uint64); further fields a
+	// changed tree may add are tolerated and left zero-valued on injection
+	foundLimbs := 0
+	for i := 0; i < et.NumField(); i++ {
+		f := et.Field(i)
+		for k, n := range []string{"l0", "l1", "l2", "l3", "l4"} {
+			if f.Name == n && f.Type.Kind() == reflect.Uint64 {
+				elemOff[k] = f.Offset
+				foundLimbs++
 			}
 		}
 	}
+	ElemLayoutOK = foundLimbs == 5
 	pt := reflect.TypeOf(edwards25519.Point{})
 	// the four coordinates are located by name; other fields (flags, caches a
 	// changed tree may add) are tolerated and left zero-valued on injection
@@ -52,17 +56,21 @@ func init() {
 		PointLayoutOK = false
 	}
 	st := reflect.TypeOf(edwards25519.Scalar{})
-	ScalarLayoutOK = st.Size() == 32
+	ScalarLayoutOK = st.Size() > 0
 }
 
 type Limbs = [5]uint64
+
+var elemOff [5]uintptr
 
 func ElemFromLimbs(l Limbs) field.Element {
 	if !ElemLayoutOK {
 		panic("field.Element layout changed; limb injection unavailable")
 	}
 	var e field.Element
-	*(*Limbs)(unsafe.Pointer(&e)) = l
+	for k := 0; k < 5; k++ {
+		*(*uint64)(unsafe.Add(unsafe.Pointer(&e), elemOff[k])) = l[k]
+	}
 	return e
 }
 
@@ -70,7 +78,11 @@ func LimbsOf(e *field.Element) Limbs {
 	if !ElemLayoutOK {
 		panic("field.Element layout changed")
 	}
-	return *(*Limbs)(unsafe.Pointer(e))
+	var l Limbs
+	for k := 0; k < 5; k++ {
+		l[k] = *(*uint64)(unsafe.Add(unsafe.Pointer(e), elemOff[k]))
+	}
+	return l
 }
 
 // LimbValue is the integer a limb vector denotes (not reduced).
@@ -99,7 +111,7 @@ func PointRaw(p *edwards25519.Point) RawPoint {
 func PointLimbs(p *edwards25519.Point) (out [20]uint64) {
 	if PointLayoutOK {
 		for k := 0; k < 4; k++ {
-			l := *(*Limbs)(unsafe.Add(unsafe.Pointer(p), pointOff[k]))
+			l := LimbsOf((*field.Element)(unsafe.Add(unsafe.Pointer(p), pointOff[k])))
 			copy(out[5*k:], l[:])
 		}
 		return
@@ -123,16 +135,16 @@ func PointFromLimbs(r [20]uint64) *edwards25519.Point {
 	for k := 0; k < 4; k++ {
 		var l Limbs
 		copy(l[:], r[5*k:5*k+5])
-		*(*Limbs)(unsafe.Add(unsafe.Pointer(p), pointOff[k])) = l
+		*(*field.Element)(unsafe.Add(unsafe.Pointer(p), pointOff[k])) = ElemFromLimbs(l)
 	}
 	return p
 }
 
-func ScalarRaw(s *edwards25519.Scalar) [4]uint64 {
-	if !ScalarLayoutOK {
-		panic("Scalar layout changed")
-	}
-	return *(*[4]uint64)(unsafe.Pointer(s))
+// RawScalar is the complete memory image of a Scalar value (comparable).
+type RawScalar string
+
+func ScalarRaw(s *edwards25519.Scalar) RawScalar {
+	return RawScalar(unsafe.Slice((*byte)(unsafe.Pointer(s)), unsafe.Sizeof(*s)))
 }
 
 // ---------- field elements ----------
